@@ -32,7 +32,7 @@ func runLBStop(x *X) {
 	net := newStubNet(x)
 	var bcs []config.BackendConfig
 	for i := 0; i < nb; i++ {
-		b := net.add(fmt.Sprintf("b%d", i), fmt.Sprintf("10.8.0.%d:80", i+1), "")
+		b := net.add(fmt.Sprintf("b%d", i), x.BackendHost(8, i+1), "")
 		b.probeMode = []string{"ok", "slow", "conn", "status"}[c.Intn(4, "probemode")]
 		if b.probeMode == "slow" {
 			b.probeSlow = []time.Duration{PT / 2, PT + time.Second, 5 * PT, PT / 4}[c.Intn(4, "slow")]
